@@ -159,15 +159,25 @@ def build(repo, it, st, obliq_on, layer_names=('core', 'mantle', 'crust'), tidal
     for o in (s.tides, s.world, s.orbit) + tuple(s.layers) + tuple(l.attrs['_rheology'] for l in s.layers):
         constructor_defaults(it, o)
     # the per-layer getters are created by the repository's own loop in LayeredTides.reinit (this is where late binding would bite)
-    f_reinit = it.find_method(Tc, 'reinit')
-    loops = [n for n in f_reinit[1].body if isinstance(n, ast.For)]
-    if not loops:
-        raise AnalysisError('LayeredTides.reinit: the loop that builds the per-layer tidal input getters vanished')
-    from ..core.interp import Frame
-    fr = Frame(f_reinit[0], 'reinit'); fr.vars['self'] = s.tides
-    fr.cls = f_reinit[2] if len(f_reinit) > 2 else None
-    it.exec(loops[0], fr)
+    run_tides_reinit(it, s, Tc)
     return s
+
+
+def run_tides_reinit(it, s, Tc):
+    """LayeredTides.reinit as a re-initialisation (initial_init=False: it resets its own per-layer containers first), everything but the call of the parent's reinit"""
+    f_reinit = it.find_method(Tc, 'reinit')
+    if f_reinit is None or not any(isinstance(n, ast.For) for n in f_reinit[1].body):
+        raise AnalysisError('LayeredTides.reinit: the loop that builds the per-layer tidal inputs vanished')
+    from ..core.interp import Frame
+    fr = Frame(f_reinit[0], 'reinit'); fr.vars['self'] = s.tides; fr.vars['initial_init'] = False
+    fr.cls = f_reinit[2] if len(f_reinit) > 2 else None
+    fr.self_obj = s.tides
+    for st in f_reinit[1].body:
+        if isinstance(st, ast.Expr) and isinstance(st.value, ast.Constant):
+            continue            # docstring
+        if isinstance(st, ast.Expr) and isinstance(st.value, ast.Call) and 'super()' in ast.unparse(st.value.func):
+            continue            # parent reinit: configuration loading, modelled by the harness attributes
+        it.exec(st, fr)
 
 
 def state_atoms(tag, layer_names):
@@ -375,3 +385,63 @@ def functional(chk, repo, rule='R13.8'):
                 bad.append(f'{q.lstrip("_")} is not the sum over the tidal layers')
         chk.ob(rule, f'layered world, obliquity tides {"on" if obliq_on else "off"}: per-layer heating == functional API with the layer\'s own inputs; global heating and potential derivatives == sums over tidal layers',
                not bad, '; '.join(bad[:4]), mt.rel(), key=f'{rule}|layered|{obliq_on}', method='abstract object graph vs interpreted functional pipeline, GF(p^2) PIT')
+
+
+def geometry_history(chk, repo, rule='R12.9'):
+    """C12 through the object-oriented path: the Love numbers a LayeredTides reports for a one-layer world are computed from the layer's radius, bulk density and surface gravity
+    *as they are now*.  The geometry is changed after the tides object was initialised (what set_geometry does to those attributes), an ordinary update re-collapses the modes,
+    and every exposed quantity must equal that of a world built with the new geometry from the start."""
+    d = X.Decider(seed=chk.seed + 7, k=2, positive=[X.atom('M_host', 'pos') + X.atom('M_world', 'pos')])
+    mt = repo.by_path('TidalPy/tides/methods/layered.py')
+    names = ('only',)
+    new_geo = {'radius': X.atom('R_only_new', 'pos'), 'density_bulk': X.atom('rho_only_new', 'pos'), 'gravity_surface': X.atom('g_only_new', 'pos')}
+    new_world = {'radius': X.atom('R_new', 'pos'), 'density_bulk': X.atom('rho_new', 'pos'), 'gravity_surface': X.atom('g_new', 'pos')}
+    for planet_params in (False, True):
+        for trigger in ('only.set_temperature', 'orbit.set_eccentricity'):
+            st0 = state_atoms('0', names)
+            Tn = X.atom('T_only_final', 'pos'); en = X.atom('e_final', 'pos')
+
+            def apply_geo(s):
+                for k_, v_ in new_geo.items(): s.layers[0].attrs[k_] = v_
+                for k_, v_ in new_world.items(): s.world.attrs[k_] = v_
+
+            def run(history):
+                it = make_interp(repo)
+                # the tides object is (re)initialised with the geometry the world has at that moment: the old one for the history, the new one for the fresh world
+                s = build_with_geo(repo, it, st0, names, planet_params, (lambda s_: None) if history else apply_geo)
+                full_init(it, s, st0, names)
+                if history:
+                    apply_geo(s)
+                if trigger == 'only.set_temperature':
+                    call(it, s.layers[0], 'set_temperature', Tn)
+                else:
+                    call(it, s.layers[0], 'set_temperature', Tn)
+                    call(it, s.orbit, 'set_eccentricity', s.world, en)
+                return exposed(s)
+            try:
+                got = run(True); ref = run(False)
+            except RaiseSignal as ex:
+                raise AnalysisError(f'{rule}: unexpected raise {ex.text}')
+            bad = []
+            love_keys = [q for q in sorted(set(got) | set(ref)) if q.startswith(('global_love_by_orderl', 'global_negative_imk_by_orderl'))]
+            if not love_keys:
+                raise AnalysisError(f'{rule}: the tides object exposes no Love numbers by order l')
+            for q in love_keys:
+                a_, b_ = got.get(q), ref.get(q)
+                if not (isinstance(a_, X.Node) and isinstance(b_, X.Node)) or (a_ is not b_ and not d.equal(a_, b_)):
+                    bad.append(f'{q.lstrip("_")} is not what a world built with the new geometry reports')
+            chk.ob(rule, f'one-layer LayeredWorld (use_planet_params_for_love_calc={planet_params}): radius, density and gravity change after the tides were initialised, then {trigger}: '
+                   'the Love numbers (and -Im k) by order l are those of the current geometry', not bad, '; '.join(bad[:4]), mt.rel(), key=f'{rule}|{planet_params}|{trigger}',
+                   method='abstract object graph (real LayeredTides, getters built by its own reinit loop) + GF(p^2) PIT')
+
+
+def build_with_geo(repo, it, st, names, planet_params, apply_geo):
+    """a one-layer world whose layer / world geometry attributes are set BEFORE LayeredTides.reinit builds its per-layer inputs"""
+    import ast as _ast
+    s = build(repo, it, st, True, names, tidal=(True,))
+    s.tides.attrs['config'] = {'use_planet_params_for_love_calc': planet_params}
+    apply_geo(s)
+    mt = repo.by_path('TidalPy/tides/methods/layered.py')
+    Tc = ('class', mt, need_class(mt, 'LayeredTides'))
+    run_tides_reinit(it, s, Tc)
+    return s
